@@ -97,6 +97,9 @@ def recipes(rng):
     add(astro.photons_per_mag, 8.0, img(rng, 4, 4), 0.1, 100., 0.01); add(astro.photons_per_band, 8.0, img(rng, 4, 4), 0.1, 0.01, waveband="R")
     add(astro.magnitude_to_flux, img(rng, 3) * 10, "V"); add(astro.flux_to_magnitude, 1234.5, "J")
     add(turb.phase_covariance, img(rng, 4, 4), 0.15, 25.0)
+    z32 = (img(rng, 6) * numpy.array([0, 1, 1, 0, 1, 1])).astype(numpy.float32)            # float32 separations with exact zeros
+    add(turb.phase_covariance, z32.copy(), 0.15, 25.0); add(sc.structure_function_vk, z32.copy() + numpy.float32(0.1), 0.15, 25.0)
+    add(kl.stf_vonKarman, z32.copy() + numpy.float32(0.1), 3.0); add(sc.structure_function_kolmogorov, z32.copy(), 0.15)
     add(sc.structure_function_vk, img(rng, 4), 0.15, 25.0); add(sc.structure_function_kolmogorov, img(rng, 4), 0.15)
     add(sc.calculate_structure_function, R(rng).normal(size=(16, 16))); add(sc.calculate_structure_function, R(rng).normal(size=(16, 16)), nbOfPoint=5, step=2)
     sep = R(rng).normal(size=(3, 4, 2))
